@@ -13,19 +13,18 @@ EXTENDS Css, Json, SequencesExt
 Compact(t, U) == [e \in Elems |-> [lh \in {l \in U : t[e][l] # NoWinner} |-> t[e][lh]]]
 CaseOf(id, sh) ==
   IF ~WFSheet(sh) THEN [id |-> id, wf |-> FALSE]
-  ELSE LET info == SheetInfo(sh)
-           envs == SetToSeq(EnvsOf(sh))
-           U == Universe(sh)
-       IN [id |-> id, wf |-> TRUE,
+  ELSE Bind(SheetInfo(sh), LAMBDA info :
+       Bind(SetToSeq(EnvsOf(sh)), LAMBDA envs :
+       Bind(Universe(sh), LAMBDA U :
+          [id |-> id, wf |-> TRUE,
            feats |-> SheetFeats(sh), atoms |-> SheetAtoms(sh), props |-> U,
            \* two different rules match one element and set one longhand (whatever the environment)
            compete |-> \E a, b \in 1..Len(sh) : /\ a < b /\ sh[a].k = "rule" /\ sh[b].k = "rule"
                           /\ \E e \in Elems : info[a].m[e][1] >= 0 /\ info[b].m[e][1] >= 0
                           /\ \E x \in 1..Len(sh[a].decls), y \in 1..Len(sh[b].decls) :
-                               Longhands(sh[a].decls[x], U) \cap Longhands(sh[b].decls[y], U) # {},
-           envs |-> [k \in 1..Len(envs) |-> [feats |-> envs[k].feats, conds |-> envs[k].conds,
-                                            layers |-> Len(Events(sh, 1, envs[k]))]],
-           win |-> [k \in 1..Len(envs) |-> Compact(WinTable(sh, info, envs[k]), U)]]
+                               \E u \in info[a].d[x].ex, w \in info[b].d[y].ex : u[1] = w[1],
+           envs |-> [k \in 1..Len(envs) |-> [feats |-> envs[k].feats, conds |-> envs[k].conds]],
+           win |-> [k \in 1..Len(envs) |-> Bind(WinTable(sh, info, envs[k]), LAMBDA t : Compact(t, U))]])))
 
 \* the vocabulary, for the harness (rendering and drawing choices)
 Vocab ==
